@@ -114,20 +114,23 @@ Inductive dout :=
 (* device_start for the path *)
 Definition device_start : dpath * list dout := (mkDP DRecv None, [DoRecv]).
 
-(* device_cb: rv = nni_aio_result(&p->aio); got = the message a successful receive put into the aio;
-   drv = d->rv when the callback takes device_mtx *)
-Definition device_cb (p : dpath) (drv rv : N) (got : option pmsg) : dpath * list dout :=
+(* device_cb: rv = nni_aio_result(&p->aio); got = the message attached to the aio by the receive that
+   completed (a receive that completed and was then aborted has rv <> 0 AND a message attached: the
+   abort replaces the result); drv = d->rv when the callback takes device_mtx.
+   dfx follows the source (Gen/Consts.v, C13_DEVICE_FREES_ATTACHED, fix f044c32): true = on a failing
+   path whatever message is attached to the aio is freed; false (the tree as first pinned) = it was
+   freed only in the SEND state, so a message received just before the abort was leaked. *)
+Definition device_cb (dfx : bool) (p : dpath) (drv rv : N) (got : option pmsg) : dpath * list dout :=
   let ok := N.eqb rv 0 in
-  (* the message in the aio when the callback runs *)
+  (* the message the callback finds / looks at in the aio *)
   let cur := match dp_st p with
-             | DRecv => if ok then got else None
+             | DRecv => if ok || dfx then got else None
              | DSend => if ok then None else dp_msg p      (* a successful send consumed it *)
              | _ => None
              end in
-  let ghost := match dp_st p, ok, got with DRecv, true, Some m => [DoGot m] | _, _, _ => [] end in
+  let ghost := match dp_st p, got with DRecv, Some m => [DoGot m] | _, _ => [] end in
   let rv1 := if ok then drv else rv in
   if negb (N.eqb rv1 0) then
-    (* (rv == 0 && d->rv != 0 && RECV) => free ; (rv != 0 && SEND) => free *)
     (mkDP DFini None, ghost ++ match cur with Some m => [DoFree m] | None => [] end ++ [DoStop rv1])
   else
     match dp_st p with
@@ -135,23 +138,23 @@ Definition device_cb (p : dpath) (drv rv : N) (got : option pmsg) : dpath * list
                | Some m => (mkDP DSend (Some m), ghost ++ [DoSend m])     (* "Leave the message where it is." *)
                | None => (mkDP DSend None, [])                            (* a successful receive always carries a message *)
                end
-    | DSend => (mkDP DRecv None, [DoRecv])
+    | DSend => (mkDP DRecv None, [DoRecv])                                (* sent: the aio's slot is cleared *)
     | DInit | DFini => (p, [])
     end.
 
 (* a callback event of the path: (d->rv seen, result, message of a successful receive) *)
 Definition dev_ev := (N * N * option pmsg)%type.
-Fixpoint device_run (p : dpath) (evs : list dev_ev) : dpath * list dout :=
+Fixpoint device_run (dfx : bool) (p : dpath) (evs : list dev_ev) : dpath * list dout :=
   match evs with
   | [] => (p, [])
   | (drv, rv, got) :: r =>
-      let '(p1, o1) := device_cb p drv rv got in
-      let '(p2, o2) := device_run p1 r in (p2, o1 ++ o2)
+      let '(p1, o1) := device_cb dfx p drv rv got in
+      let '(p2, o2) := device_run dfx p1 r in (p2, o1 ++ o2)
   end.
 
 (* what the device hands to the destination socket for a message received from the source socket *)
 Definition device_pass (m : pmsg) : pmsg :=
-  match snd (device_cb (mkDP DRecv None) 0 0 (Some m)) with
+  match snd (device_cb true (mkDP DRecv None) 0 0 (Some m)) with
   | [DoGot _; DoSend m'] => m'
   | _ => m
   end.
